@@ -30,7 +30,7 @@ def generate(tier, rng):
     cases = []
     k = 0
     grids = ["unit", "const4", "uneven_p2", "uneven_alt"] + (["uneven"] if True else [])
-    extras = [[], ["r"], ["r", "g"]]
+    extras = [[], ["r"], ["r", "g"], ["r", "h"]]     # r and h have equal lengths: a parameter over one of them must not be applied along the other
     for gname in grids:
         grid = c03.GRIDS[gname]
         ex = gname in c03.EXACT_GRIDS
@@ -39,6 +39,12 @@ def generate(tier, rng):
                 continue
             N = int(np.prod(sd.shape_of(grid, extra)))
             lts = c03.lifetimes(rng, grid, extra, k) if ex else [dict(kind="lognormal", mean=9, std=4), dict(kind="weibull", shape=2.0, scale=8)]
+            if ex and len(extra) == 2:
+                # parameters over the FIRST extra dimension only, and over (second, first) without time
+                l0, l1 = extra
+                n0, n1 = len(sd.EXTRA[l0]), len(sd.EXTRA[l1])
+                lts = lts + [dict(kind="probe", mean=dict(dims=[l0], values=[[1, 4, 2][(k + i) % 3] for i in range(n0)]), inflow_at="start"),
+                             dict(kind="probe", mean=dict(dims=[l1, l0], values=[[1, 2, 4, 8, 2][(k + 3 * i) % 5] for i in range(n0 * n1)]), inflow_at="middle")]
             for lt in lts:
                 for cls, solver in (("idsm", None), ("sdsm", "manual"), ("sdsm", "lapack")):
                     k += 1
